@@ -71,7 +71,9 @@ def site_dofs(spec):
 
 # site-level vocabulary: each entry is (list of symbols, list of dof positions within the site,
 # is_complex_matrix).  The symbols of one entry are adjacent factors on that site.
-SPIN_1 = ["X", "Y", "Z", "sigma_+", "sigma_-", "sigma_x", "sigma_z", "iY", "+", "-", "sigma_y"]
+# the one-character alias "+" is left out on purpose: in a flat product string the sequence
+# "b^\\dagger + b" (boson factor, spin "+", boson factor) is read by Op as the simple symbol b^\\dagger+b
+SPIN_1 = ["X", "Y", "Z", "sigma_+", "sigma_-", "sigma_x", "sigma_z", "iY", "-", "sigma_y"]
 SPIN_CPLX = {"Y", "sigma_y", "y"}
 
 
